@@ -38,10 +38,15 @@ SHAPES = {
     # a non-final alias that leaves its output in the stream wrapper (no flush of its own): xonsh's final
     # flush must happen before anybody may consider the stage finished
     "$(L|B)": ("stdout", [(["noflush", b"a\n", b"b\n"], 0), ("pass", 0)]),
+    # the first stage leaves through SystemExit while the second is still printing through sys.stdout
+    # (print(), not the `stdout` argument): the redirection of a stage that is still running stays
+    "$(X|P)": ("stdout", [([b"a\n", b"b\n", "sysexit"], 0), ("pass-print", 0)]),
+    # the non-blocking view is looked at while the command runs, the blocking views afterwards
+    "!(A)-peek-then-views": ("objectpeek", [([b"a\n", b"b\n"], 2)]),
     # several views of ONE pipeline object in a row: iterate its lines first, then ask for the rest
     "!(A)-iterate-then-views": ("objectiter", [([b"a\n", b"b\n"], 2)]),
 }
-QUICK = ["$(A)-two-chunks", "!(A)-two-chunks", "$(A);$(A)", "$(A)-closes-stdout", "!(A)-iterate-then-views", "$(S|B);$(A)"]  # "$(S|B);$(A)" extends "$(A|B);$(A)" (thorough)  # "$(A|B)" is a prefix of the last one
+QUICK = ["$(A)-two-chunks", "$(A);$(A)", "$(A)-closes-stdout", "!(A)-iterate-then-views", "$(S|B);$(A)", "$(X|P)", "!(A)-peek-then-views"]  # "$(S|B);$(A)" extends "$(A|B);$(A)" (thorough)  # "$(A|B)" is a prefix of the last one
 
 _SHAPE = None
 _XSH = None
@@ -104,6 +109,8 @@ def _mk_alias(s, spec, idx):
             if c == "noflush":
                 continue
             s.point()
+            if c == "sysexit":
+                raise SystemExit(rc)
             if c == "close":
                 stdout.close()
             elif isinstance(c, tuple) and c[0] == "silence":
@@ -133,8 +140,14 @@ def _mk_alias(s, spec, idx):
             data = os.read(fd, 1024)
             if not data:
                 break
-            stdout.write("B:" + data.decode("latin1"))
-            stdout.flush()
+            if chunks == "pass-print":
+                import sys as _sys
+
+                print("B:" + data.decode("latin1"), end="")
+                _sys.stdout.flush()
+            else:
+                stdout.write("B:" + data.decode("latin1"))
+                stdout.flush()
             nlines += data.count(b"\n")
             if chunks == "head1" and nlines >= 1:
                 break  # exits early while the producer may still be writing
@@ -218,6 +231,13 @@ def _commands(s, kind, stages):
         out = subproc_captured_stdout(*cmds)
         rtn = _XSH.lastcmd.rtn if getattr(_XSH, "lastcmd", None) is not None else None
         res = {"out": out, "rtn": rtn}
+    elif kind == "objectpeek":
+        obj = subproc_captured_object(*cmds)
+        peek = obj.output  # non-blocking: whatever has arrived
+        s.point()
+        peek2 = obj.output
+        obj.end()
+        res = {"peek": [peek, peek2], "out": obj.out, "rtn": obj.rtn, "raw": obj.raw_out, "lines": list(obj.lines), "output_after": obj.output}
     elif kind == "objectiter":
         obj = subproc_captured_object(*cmds)
         it = [ln for ln in obj]
@@ -274,7 +294,9 @@ def _check(r, prefix):
             want = want + "|" + want
         if out != want:
             V(f"output-differs:{kind}:{'lost' if len(out or '') < len(want) else 'extra'}", "captured output is exactly what the command wrote", out, want)
-        if kind in ("object", "objectiter") and v.get("raw") is not None and v["raw"] != data:
+        if kind == "objectpeek" and v["output_after"] != want:
+            V("views-of-one-object-disagree:output-after-end", "every view of the pipeline object shows the complete output", v["output_after"], want)
+        if kind in ("object", "objectiter", "objectpeek") and v.get("raw") is not None and v["raw"] != data:
             V("raw-out-differs", "raw_out is exactly the bytes written", v["raw"][:60], data[:60])
         if kind == "objectiter":
             if "".join(v["iterated"]) != want or "".join(v["lines"]) != want or v["raw_again"] != data:
@@ -285,7 +307,7 @@ def _check(r, prefix):
             out = v["raw"].decode("latin1")  # `.out` drops the newline of a one-line output (stream_lines)
         stripped = (out or "").replace("B:", "")
         full = data.decode("latin1")
-        if mode == "pass":
+        if mode in ("pass", "pass-print"):
             want = full[:-1] if (kind == "stdout" and full.count("\n") == 1 and full.endswith("\n")) else full
             if stripped != want:
                 V(f"pipeline-output-differs:{kind}", "every byte of the final stage arrives once and in order", out, want)
